@@ -124,7 +124,8 @@ func runInterleave(r *hx.R, n int, w *hx.W, _ []string) error {
 	digestNames := []string{"bank", "evm", "acc", "wasm", "oracle", "tokenfactory", "sudo", "devgas", "inflation", "epochs"}
 	digestSkip = nil
 
-	queryKinds := []string{"none", "bank-balance", "ethcall-view", "estimate-gas", "ethcall-bank-precompile", "simulate-ethtx", "simulate-convert"}
+	queryKinds := []string{"none", "bank-balance", "ethcall-view", "estimate-gas", "ethcall-bank-precompile", "simulate-ethtx", "simulate-convert",
+		"simulate-convert-bad", "simulate-createft-bad", "simulate-createft-erc20", "simulate-ethtx-bad"}
 	yields := []string{"between-txs", "in-tx-before-bank-op", "in-tx-after-bank-op", "tx-starts-while-simulation-in-flight"}
 
 	runQuery := func(kind string, amt int64) string {
@@ -167,6 +168,34 @@ func runInterleave(r *hx.R, n int, w *hx.W, _ []string) error {
 					return "err"
 				}
 				if _, err := k.EthereumTx(sdk.WrapSDKContext(qctx), m); err != nil {
+					return "err"
+				}
+				return "ok"
+			case "simulate-ethtx-bad": // a simulated Ethereum tx whose run fails (more value than the sender owns)
+				to := edFresh[1]
+				m, err := signedEthTx(&deps, accs[0], k.GetAccNonce(qctx, accs[0].EthAddr), &to, new(big.Int).Exp(big.NewInt(10), big.NewInt(40), nil), 100_000, gasPrice, nil)
+				if err != nil {
+					return "err"
+				}
+				if _, err := k.EthereumTx(sdk.WrapSDKContext(qctx), m); err != nil {
+					return "err"
+				}
+				return "ok"
+			case "simulate-convert-bad": // fails: no FunToken mapping for the denom
+				if _, err := k.ConvertCoinToEvm(sdk.WrapSDKContext(qctx), &evm.MsgConvertCoinToEvm{Sender: accs[1].NibiruAddr.String(),
+					BankCoin: sdk.NewInt64Coin("unibi", amt), ToEthAddr: eth.EIP55Addr{Address: edFresh[0]}}); err != nil {
+					return "err"
+				}
+				return "ok"
+			case "simulate-createft-bad": // fails inside the handler, after its StateDB exists: the address is not an ERC20
+				if _, err := k.CreateFunToken(sdk.WrapSDKContext(qctx), &evm.MsgCreateFunToken{FromErc20: &eth.EIP55Addr{Address: edFresh[1]},
+					Sender: accs[1].NibiruAddr.String()}); err != nil {
+					return "err"
+				}
+				return "ok"
+			case "simulate-createft-erc20": // succeeds (on the simulation's branch): the view contract is an unmapped ERC20
+				if _, err := k.CreateFunToken(sdk.WrapSDKContext(qctx), &evm.MsgCreateFunToken{FromErc20: &eth.EIP55Addr{Address: viewC},
+					Sender: accs[1].NibiruAddr.String()}); err != nil {
 					return "err"
 				}
 				return "ok"
